@@ -154,6 +154,7 @@ Emit ==
       IF L0ok
         THEN [u |-> UF, insts |-> insts, res |-> "ok",
               exp |-> [i \in DOMAIN insts |-> IF Ev(U, dr, Addr(1, <<>>), insts[i], <<>>).ok THEN "T" ELSE "F"],
-              loads |-> SetToSeq({U.docs[d].uri : d \in NeededDocs(U, dr) \ {1}})]
+              loads |-> SetToSeq({U.docs[d].uri : d \in NeededDocs(U, dr) \ {1}}),
+              targets |-> SetToSeq(DesignatedTargets(U, dr))]
         ELSE [u |-> UF, insts |-> insts, res |-> "err", exp |-> <<>>])>>)
 ====
